@@ -406,6 +406,10 @@ pub fn mutation_stream(rng: &mut Rng, thorough: bool) -> Vec<TextCase> {
 
 // ---------------------------------------------------------------- trees in the parser's image (C07 / C16)
 
+fn emap_owned(kvs: Vec<(String, Expr)>) -> Expr {
+    Expr::Map(kvs.into_iter().collect())
+}
+
 pub fn image_leaves() -> Vec<Expr> {
     // names that are also literal prefixes: `f.5` / `d.5` / `i5` are literals, so `f .5` must not print as `f.5`
     let mut v: Vec<Expr> = vec![reff("a"), reff("if1"), reff("f"), reff("d"), reff("i"), Expr::Symbol("s".into()), Expr::Symbol("f".into()), Expr::Symbol("d".into()), lit(Value::None), lit(Value::Bool(true)), lit(Value::Int(5)), lit(Value::Int(-5)), lit(Value::Int(i128::MIN)),
@@ -467,6 +471,16 @@ pub fn image_trees(rng: &mut Rng, thorough: bool) -> Vec<Expr> {
     let mut out = leaves.clone();
     out.extend(d1);
     out.extend(d2.clone());
+    // size: long lists, maps, chains, paths and call towers print and parse back like short ones
+    for n in [33usize, 100, 400] {
+        out.push(Expr::Vec((0..n).map(|i| lit(Value::Int(i as i128 - 5))).collect()));
+        out.push(Expr::Vec((0..n).map(|i| if i % 3 == 0 { lit(Value::Float(i as f64 + 0.5)) } else if i % 3 == 1 { lit(crate::pool::s("q\"")) } else { mk_un("neg", reff("a")) }).collect()));
+        out.push(emap_owned((0..n).map(|i| (format!("k{}", (i * 7 + 3) % n), lit(Value::Int(i as i128)))).collect()));
+        out.push((1..n).fold(reff("a0"), |e, i| mk_bin(if i % 2 == 0 { "bitand" } else { "bitor" }, e, reff(&format!("a{}", i)))));
+        out.push((1..n.min(120)).fold(reff("a0"), |e, i| mk_bin(["add", "and", "eq", "contains", "mult"][i % 5], e, reff(&format!("a{}", i)))));
+        out.push((0..n.min(120)).fold(reff("a"), |e, i| if i % 2 == 0 { idxk(e, "f") } else { idxn(e, i) }));
+        out.push((0..n.min(120)).fold(reff("a"), |e, i| if i % 3 == 0 { call("g", e) } else if i % 3 == 1 { mk_un("not", e) } else { mk_un("toint", e) }));
+    }
     // depth 3 random
     let n3 = if thorough { 60000 } else { 6000 };
     let mut pool3 = d2;
@@ -604,6 +618,29 @@ pub fn rule_stream(rng: &mut Rng, thorough: bool) -> Vec<TextCase> {
     // systematic: every constant shape as the only metadata item
     for c in const_shapes() {
         out.push(TextCase { text: format!("//n\n@k: {};\ni1", c), tag: "rule-const" });
+    }
+    // large rule texts: many metadata items with repeated keys (the last occurrence wins at every size), many comment
+    // lines (name, then a long description), long names, many constants inside one item
+    for n in [10usize, 33, 40, 100, 300] {
+        let mut t = String::from("// big rule\n");
+        for i in 0..n {
+            t.push_str(&format!("@{}: i{};\n", ["b", "a", "c"][i % 3], i));
+        }
+        t.push_str("a + b");
+        out.push(TextCase { text: t, tag: "rule-big" });
+        let mut t = String::new();
+        for i in 0..n {
+            t.push_str(&format!("@k{:03}: \"v{}\";\n", (i * 7 + 3) % n, i));
+        }
+        t.push_str(&format!("@k{:03}: i1;\n@name: \"n\";\n@description: i5;\n// c1\n// c2\ni1", 3 % n));
+        out.push(TextCase { text: t, tag: "rule-big" });
+        let mut t = String::from("// the name\n");
+        for i in 0..n {
+            t.push_str(&format!("//   line {}  \n", i));
+        }
+        t.push_str("i1\n// after the expression\n");
+        out.push(TextCase { text: t, tag: "rule-big" });
+        out.push(TextCase { text: format!("// {}\n@k: [{}];\n@m: {{{}}};\ni1", "n".repeat(n * 10), (0..n).map(|i| format!("i{}", i)).collect::<Vec<_>>().join(", "), (0..n).map(|i| format!("k{}: i{}", (i * 7) % n, i)).collect::<Vec<_>>().join(", ")), tag: "rule-big" });
     }
     for _ in 0..(if thorough { 120000 } else { 12000 }) {
         let nlines = rng.below(7);
@@ -818,7 +855,7 @@ pub fn run_c08(rep: &mut Report, driver: &str, workers: usize, thorough: bool, s
 pub fn run_c14(rep: &mut Report, driver: &str, workers: usize, thorough: bool, seed: u64) {
     let mut rng = Rng::new(seed);
     let run = run_texts(rule_stream(&mut rng, thorough), true, driver, workers);
-    judge_texts("C14", "rule-texts", "rule texts assembled from 0..6 lines: 11 comment-line shapes (indented, empty, NBSP-padded, triple slash, containing `@name`), 26 metadata items (name / description overrides of string and non-string type, duplicates, non-constant values, malformed items) plus every constant shape of depth <= 3 over {literal, list, map} (systematically, incl. duplicate map keys), 14 expressions (multi-line string containing `//`, trailing comment, `/` and comments), placed before / between / after each other with \\n, \\r\\n or \\r endings; compared: name, description, the full metadata list, the expression tree, and which of MissingRuleName / RuleParseError is reported", false, &run, "full", rep);
+    judge_texts("C14", "rule-texts", "rule texts of 10 / 33 / 40 / 100 / 300 metadata items with repeated keys, scattered keys, long comment blocks, long names and large constants; rule texts assembled from 0..6 lines: 11 comment-line shapes (indented, empty, NBSP-padded, triple slash, containing `@name`), 26 metadata items (name / description overrides of string and non-string type, duplicates, non-constant values, malformed items) plus every constant shape of depth <= 3 over {literal, list, map} (systematically, incl. duplicate map keys), 14 expressions (multi-line string containing `//`, trailing comment, `/` and comments), placed before / between / after each other with \\n, \\r\\n or \\r endings; compared: name, description, the full metadata list, the expression tree, and which of MissingRuleName / RuleParseError is reported", false, &run, "full", rep);
 }
 
 pub fn run_c16(rep: &mut Report, driver: &str, workers: usize, thorough: bool, seed: u64) {
